@@ -541,6 +541,7 @@ class App(falcon.app.App):
                 req_succeeded = False
 
         data: Optional[bytes] = b''
+        had_content_type = 'content-type' in resp._headers
 
         try:
             # NOTE(vytas): It is only safe to inline Response.render_body()
@@ -609,6 +610,10 @@ class App(falcon.app.App):
             #
             if resp_status in _TYPELESS_STATUS_CODES:
                 default_media_type = None
+                if not had_content_type:
+                    # NOTE: Rendering resp.media fills in the default media
+                    #   type as a side effect.
+                    resp._headers.pop('content-type', None)
             elif (
                 # NOTE(kgriffs): If they are going to stream using an
                 #   async generator, we can't know in advance what the
